@@ -15,16 +15,19 @@
 EXTENDS TunAbs
 
 CONSTANTS Faults,     \* subset of {"Lose", "Dup", "Reorder"}
-          MaxCopies   \* bound on the number of times one packet is handed over when "Dup" \in Faults
+          MaxCopies,  \* bound on the number of times one packet is handed over when "Dup" \in Faults
+          MaxBatch    \* how many packets (of any senders) may wait in the receiver's socket for ONE DoInput() call (1 = a call per packet)
 
 VARIABLES pk,   \* [Senders -> Seq(packet)]: everything sender s wrote to its PacketDataIO, in order
-          cnt   \* [Senders -> Seq(Nat)]: how often packet k has been handed to the receiver
+          cnt,  \* [Senders -> Seq(Nat)]: how often packet k has been handed to the receiver
+          rxq   \* packets [s, k] that have arrived in the receiver's socket and wait for the next DoInput() call, in arrival order
 
-NetInit == pk = [s \in Senders |-> <<>>] /\ cnt = [s \in Senders |-> <<>>]
+NetInit == pk = [s \in Senders |-> <<>>] /\ cnt = [s \in Senders |-> <<>>] /\ rxq = <<>>
 
 NetWrite(s, ps) == /\ pk' = [pk EXCEPT ![s] = @ \o ps]
                    /\ cnt' = [cnt EXCEPT ![s] = @ \o [i \in 1..Len(ps) |-> 0]]
-NetIdle == UNCHANGED <<pk, cnt>>
+                   /\ UNCHANGED rxq
+NetIdle == UNCHANGED <<pk, cnt, rxq>>
 
 \* highest index handed over so far (0 = none)
 RECURSIVE TopFrom(_, _)
@@ -35,9 +38,16 @@ CanTake(s, k) == /\ k \in 1..Len(pk[s])
                  /\ cnt[s][k] < (IF "Dup" \in Faults THEN MaxCopies ELSE 1)
                  /\ ("Lose" \in Faults \/ k <= Top(s) + 1)                    \* nothing skipped for good
                  /\ ("Reorder" \in Faults \/ k >= Top(s))                     \* nothing older than the newest handed over
-NetTake(s, k) == cnt' = [cnt EXCEPT ![s][k] = @ + 1] /\ UNCHANGED pk
+\* packet k of s arrives and the receiver calls DoInput(): the call reads everything that waits, then this packet
+NetTake(s, k) == cnt' = [cnt EXCEPT ![s][k] = @ + 1] /\ rxq' = <<>> /\ UNCHANGED pk
+Batch(s, k)   == Append(rxq, [s |-> s, k |-> k])
+\* packet k of s arrives and waits (no call yet)
+CanWait(s, k) == CanTake(s, k) /\ Len(rxq) + 1 < MaxBatch
+NetWait(s, k) == cnt' = [cnt EXCEPT ![s][k] = @ + 1] /\ rxq' = Append(rxq, [s |-> s, k |-> k]) /\ UNCHANGED pk
+\* DoInput() without a new arrival
+NetDrain      == rxq' = <<>> /\ UNCHANGED <<pk, cnt>>
 \* what the step is called in the fault schedule
 Fault(s, k)   == IF cnt[s][k] > 0 THEN "dup" ELSE IF k < Top(s) THEN "reorder" ELSE IF k > Top(s) + 1 THEN "skip" ELSE "none"
 \* nothing more can or must arrive
-NetEmpty      == \A s \in Senders : \A k \in 1..Len(pk[s]) : cnt[s][k] >= 1
+NetEmpty      == rxq = <<>> /\ \A s \in Senders : \A k \in 1..Len(pk[s]) : cnt[s][k] >= 1
 =============================================================================
